@@ -310,7 +310,12 @@ StoreX == << SP(<<97, 49>>, Dig(2)), SP(<<97, 50>>, <<50, 46, 53>>), SP(<<98, 49
              SP(<<100, 49>>, <<50, 46, 53>>), SP(<<100, 50>>, Dig(3)), SP(<<101, 49>>, <<45, 50, 46, 53>>), SP(<<101, 50>>, <<45, 50>>), SP(<<102, 49>>, Dig(7)) >>
 C09MixedText == { [st |-> Select(<<F(ACall("substr", <<AKey, AInt(0), AInt(1)>>), "p"), f>>, All, <<>>, <<1>>, NoLim), sid |-> "X"] :
               f \in { F(Call1("sum", AVal), "s"), F(Call1("avg", AVal), "av"), F(Call1("min", AVal), "m"), F(Call1("max", AVal), "x"), F(ABin("-", Call1("max", AVal), Call1("min", AVal)), "r") } }
-C09Cases == C09MixedText \cup C09Grouped \cup C09All \cup C09Refs \cup C09Empty \cup C09Raw
+\* quantile: approximate by definition (the contract leaves its value open), but total for every percent
+QPcts == { AInt(0), AInt(1), AFlt(1, 1), AFlt(1, 2), ABin("-", AInt(0), AFlt(1, 1)), ABin("-", AInt(0), AInt(1)), ABin("-", AInt(1), AFlt(1, 1)), AFlt(3, 1) }
+C09Quantile == { [st |-> Select(<<F(Call2("quantile", x, q), "q"), F(Call1("count", AInt(1)), "c")>>, All, <<>>, <<>>, NoLim), sid |-> sid] :
+                   x \in {Call1("int", AVal), Call1("float", AVal), AVal}, q \in QPcts, sid \in {"I", "E"} }
+               \cup { [st |-> Select(<<F(AVal, "g"), F(Call2("quantile", Call1("strlen", AKey), q), "q")>>, All, <<>>, <<1>>, NoLim), sid |-> "G"] : q \in QPcts }
+C09Cases == C09Quantile \cup C09MixedText \cup C09Grouped \cup C09All \cup C09Refs \cup C09Empty \cup C09Raw
 
 -----------------------------------------------------------------------------
 (* c05: aliases and the field cache.  Stores in which the first, middle and last scanned rows fail the filter. *)
